@@ -85,6 +85,7 @@ struct Knobs {
     int rm_change_pct = 0;       // the broker announces a different Receive Maximum (or none) on later connections
     int suback_fail_pct = 15, suback_all_fail_pct = 5;
     int sub_burst_pct = 0;
+    int server_disconnect_pct = 0;   // the broker ends connections with DISCONNECT (sometimes right behind a last message, in the same read)
     int signal_pct = 0;          // per request: bound to a cancellation slot and signalled (total / partial, rarely terminal) some time after initiation
     int drop_ack_pct = 0;        // scenarios in which the broker withholds acknowledgements on a live connection for the first 30 s (only the 20 s sentry helps)
     int own_limit_pct = 0;       // the client announces a Maximum Packet Size; the broker sends messages exactly at / just below it
@@ -195,6 +196,16 @@ Scenario gen_mix(vu::Rng& rng, const Knobs& k, const std::string& family) {
         if (rng.chance(1, 3)) { ref::Gen g(rng); g.max_str = 30; b.props = g.props(ref::PUBLISH, -1, {0x23}); }
         sc.script.push_back(b);
     }
+    if ((int)rng.below(100) < k.server_disconnect_pct) {
+        int nd = (int)rng.range(1, 2);
+        for (int i = 0; i < nd; ++i) {
+            Action d; d.kind = Action::broker_disconnect; d.at = (vt)rng.range(50 * MS, k.span + 1 * SEC);
+            d.rc = rng.pick(std::vector<uint8_t>{0x00, 0x80, 0x87, 0x89, 0x8B, 0x8D, 0x8E, 0x93, 0x97, 0x98, 0x9C, 0xA0});
+            if (rng.chance(1, 2)) d.payload = "last words";
+            if (rng.chance(1, 3)) { ref::Prop u; u.id = 0x1F; u.s1 = "server says bye"; d.props.push_back(u); }
+            sc.script.push_back(d);
+        }
+    }
     if (k.signal_pct) {
         size_t n0 = sc.script.size();
         for (size_t i = 0; i < n0; ++i) {
@@ -300,16 +311,16 @@ Scenario reference_workload(int which, uint64_t seed) {
 Knobs knobs_for(const std::string& family) {
     Knobs k;
     if (family == "c01-mix") { k.inbound = 3; k.qos_w[0] = 0; k.qos_w[1] = 1; k.qos_w[2] = 1; k.authenticator_pct = 10; k.signal_pct = 5; }
-    else if (family == "c02-mix") { k.faults_max = 3; k.bad_attempts_max = 3; k.authenticator_pct = 10; k.drop_ack_pct = 15; k.signal_pct = 8; }
+    else if (family == "c02-mix") { k.faults_max = 3; k.bad_attempts_max = 3; k.authenticator_pct = 10; k.drop_ack_pct = 15; k.signal_pct = 8; k.server_disconnect_pct = 10; }
     else if (family == "c03-mix") { k.qos_w[0] = 1; k.qos_w[1] = 1; k.qos_w[2] = 4; k.faults_max = 3; k.rm_choices = {0, 1, 2, 3}; k.signal_pct = 8; }
-    else if (family == "c04-mix") { k.pubs_max = 4; k.inbound = 8; k.faults_max = 3; k.lose_session_pct = 25; k.subs = 1; k.own_limit_pct = 20; }
-    else if (family == "c05-mix") { k.suffix = 15 * SEC; k.signal_pct = 25; }
+    else if (family == "c04-mix") { k.pubs_max = 4; k.inbound = 8; k.faults_max = 3; k.lose_session_pct = 25; k.subs = 1; k.own_limit_pct = 20; k.server_disconnect_pct = 10; }
+    else if (family == "c05-mix") { k.suffix = 15 * SEC; k.signal_pct = 25; k.server_disconnect_pct = 25; }
     else if (family == "c06-rm-change") { k.pubs_min = 3; k.pubs_max = 30; k.burst_pct = 80; k.faults_max = 3; k.qos_w[0] = 3; k.big_payload_pct = 0; k.inbound = 0; k.subs = 0; k.rm_change_pct = 100; k.ack_delay_max = 100 * MS; }
     else if (family == "c06-mix") { k.pubs_min = 2; k.pubs_max = 60; k.burst_pct = 70; k.faults_max = 3; k.qos_w[0] = 2; k.big_payload_pct = 2; k.inbound = 0; k.subs = 0; k.signal_pct = 8; }
     else if (family == "c07-mix") { k.pubs_min = 4; k.pubs_max = 30; k.burst_pct = 80; k.rm_choices = {1, 1, 2, 3, 4, 8, 65535}; k.signal_pct = 12; k.qos_w[0] = 1; k.faults_max = 2; k.ack_delay_max = 200 * MS; k.inbound = 1; k.subs = 0; k.invalid_pub_pct = 8; k.rm_change_pct = 30; }
     else if (family == "c08-mix") { k.pubs_min = 5; k.pubs_max = 40; k.subs = 2; k.unsubs = 2; k.faults_max = 2; k.inbound = 3; k.signal_pct = 12; }
-    else if (family == "c11-mix") { k.keep_alive = 2; k.faults_max = 3; k.bad_attempts_max = 3; k.pubs_max = 8; k.ack_delay_max = 500 * MS; k.suffix = 60 * SEC; }
-    else if (family == "c13-mix") { k.pubs_max = 4; k.subs = 2; k.faults_max = 3; k.lose_session_pct = 60; k.inbound = 2; k.authenticator_pct = 25; k.suback_all_fail_pct = 25; }
+    else if (family == "c11-mix") { k.keep_alive = 2; k.faults_max = 3; k.bad_attempts_max = 3; k.pubs_max = 8; k.ack_delay_max = 500 * MS; k.suffix = 60 * SEC; k.server_disconnect_pct = 15; }
+    else if (family == "c13-mix") { k.pubs_max = 4; k.subs = 2; k.faults_max = 3; k.lose_session_pct = 60; k.inbound = 2; k.authenticator_pct = 25; k.suback_all_fail_pct = 25; k.server_disconnect_pct = 10; }
     else if (family == "c14-mix") { k.pubs_max = 2; k.subs = 3; k.unsubs = 2; k.faults_max = 2; k.signal_pct = 10; k.suback_fail_pct = 30; k.suback_all_fail_pct = 10; k.subs = 5; k.unsubs = 4; k.sub_burst_pct = 50; k.ack_delay_max = 150 * MS; }
     else if (family == "c14-hostile") { k.pubs_max = 2; k.subs = 3; k.unsubs = 2; k.faults_max = 1; k.inbound = 0; k.hostile_count_pct = 35; k.hostile_rc_pct = 15; }
     else if (family == "c01-hostile-rc") { k.inbound = 0; k.qos_w[0] = 0; k.qos_w[1] = 1; k.qos_w[2] = 1; k.subs = 0; k.faults_max = 1; k.hostile_rc_pct = 20; }
@@ -376,11 +387,22 @@ void run_idle_sweep(Judge& j, uint64_t nbase, int max_idle, const std::vector<in
     const FamilyCtx& ctx = j.ctx;
     uint64_t idx = 0;
     Knobs k; k.pubs_max = 6; k.suffix = 12 * SEC; k.span = 1 * SEC; k.faults_max = 1; k.bad_attempts_max = 1; k.big_payload_pct = 0;
-    k.rm_choices = {0, 0, 1, 2, 5, 10, 65535}; k.authenticator_pct = 30;
+    k.rm_choices = {0, 0, 1, 2, 5, 10, 65535}; k.authenticator_pct = 30; k.server_disconnect_pct = 40;
     for (uint64_t bi = 0; bi < nbase; ++bi) {
         vu::Rng rng(ctx.seed * 31337 + bi * 104729);
         Scenario base = gen_mix(rng, k, "idle-base");
         base.seed = ctx.seed; base.index = bi;
+        if (bi % 3 == 2) {
+            // a small base whose every handler boundary fits under the cap: the Server sends a last message and DISCONNECT in one
+            // read (fixed latency), with a request outstanding; what a cancel() issued from the receive handler meets
+            base = Scenario{}; base.family = "idle-base"; base.seed = ctx.seed; base.index = bi;
+            base.net.latency_min = base.net.latency_max = 200 * US;
+            Action r; r.kind = Action::run; base.script.push_back(r);
+            if (rng.chance(1, 2)) { Action p; p.kind = Action::publish; p.at = 250 * MS; p.qos = (int)rng.range(1, 2); p.topic = "x"; p.payload = "y"; base.script.push_back(p); }
+            Action d; d.kind = Action::broker_disconnect; d.at = 300 * MS; d.rc = rng.pick(std::vector<uint8_t>{0x00, 0x8B, 0x98}); d.payload = "last words"; base.script.push_back(d);
+            if (rng.chance(1, 2)) { Action d2 = d; d2.at = 2 * SEC; base.script.push_back(d2); }
+            base.end = 8 * SEC;
+        }
         if (rng.chance(1, 3)) base.net.shutdown_hangs = true;
         // slow paths: the terminal action then meets a connect in progress, a handshake in flight or a write being drained
         if (rng.chance(1, 3)) base.default_attempt.tcp_delay = (vt)rng.pick(std::vector<vt>{300 * MS, 1500 * MS});
@@ -402,7 +424,7 @@ void run_idle_sweep(Judge& j, uint64_t nbase, int max_idle, const std::vector<in
             const std::vector<int>& kinds = pass == 0 ? term_kinds : handler_kinds;
             for (int ip = 1; ip <= lim; ++ip)
                 for (int tk : kinds) {
-                    if (pass == 2 && tk > 2 && tk != 4 && tk != 5 && tk != 10) continue;
+                    if (pass == 2 && tk > 2 && tk != 4 && tk != 5 && tk != 10 && tk != 11) continue;
                     if (int(idx++ % ctx.nshards) != ctx.shard) continue;
                     Scenario sc = base; sc.family = pass == 0 ? "idle-sweep" : pass == 1 ? "handler-sweep" : "timer-sweep"; sc.index = bi * 1000000 + ip * 10 + tk + (pass ? 500000 : 0) + (pass == 2 ? 200000 : 0);
                     Action a;
@@ -434,6 +456,7 @@ void run_idle_sweep(Judge& j, uint64_t nbase, int max_idle, const std::vector<in
                             }
                             break;
                         }
+                        case 11: a.kind = Action::replace; break;   // move-assignment "cancels this client first"
                         case 5: a.kind = Action::disconnect; a.rc = 4; { ref::Prop u; u.id = 0x1F; u.s1 = rng.chance(1, 2) ? "bye" : "bye, and thanks for all the fish: a reason string that is longer than a small packet limit"; a.props.push_back(u); if (rng.chance(1, 2)) { ref::Prop q; q.id = 0x26; q.s1 = "why"; q.s2 = "because"; a.props.push_back(q); } } break;
                         case 6: {   // a request and the terminal action in the same turn: the request's write completion is already queued
                             a.kind = Action::publish; a.qos = (int)rng.range(1, 2); a.topic = "turn"; a.payload = "x";
@@ -1322,7 +1345,7 @@ int run_families(const FamilyCtx& ctx, vu::Result& res) {
         Knobs k = knobs_for("c04-mix");
         run_mix(j, k, "c04-mix", T ? 150000 : 3000);
     } else if (P == "C05") {
-        run_idle_sweep(j, T ? 40 : 4, T ? 200 : 90, {0, 1, 2, 3, 4, 5, 6, 7, 8, 10}, T ? 400 : 150, {0, 1, 2, 6, 10}, T ? 300 : 80);
+        run_idle_sweep(j, T ? 40 : 4, T ? 200 : 90, {0, 1, 2, 3, 4, 5, 6, 7, 8, 10, 11}, T ? 400 : 150, {0, 1, 2, 6, 10, 11}, T ? 300 : 80);
         run_closed_client(j, T ? 20000 : 600);
         Knobs k = knobs_for("c05-mix");
         run_mix(j, k, "c05-mix", T ? 50000 : 1000);
